@@ -11,6 +11,7 @@ import astropy.constants as const
 import numpy as np
 
 from pyxel.detectors import MKID
+from pyxel.util import set_random_seed
 
 
 def convert_to_phase(
@@ -178,8 +179,7 @@ def pulse_processing(
 
     mu, sigma = wavelength, sigma_lambda
 
-    np.random.seed(42)
-
-    _gaussian_samples = np.random.normal(
-        mu, sigma, detector.phase.array[0][0]
-    )  # To be continued...
+    with set_random_seed(42):
+        _gaussian_samples = np.random.normal(
+            mu, sigma, detector.phase.array[0][0]
+        )  # To be continued...
